@@ -19,10 +19,13 @@ class RenderProp:
 
     def gen(self, rng):
         s = self.special(rng)
+        pts = []
+        if isinstance(s, tuple):
+            s, pts = s
         if s is None:
             F = self.features(rng) if callable(self.features) else self.features
             s = docgen.document(rng, docgen.Features(**F))
-        return {"src": s, "ndigits": rng.choice(self.ndigits)}
+        return {"src": s, "ndigits": rng.choice(self.ndigits), "points": [list(p) for p in pts]}
 
     def correspondence(self, ctx):
         n = self.n_thorough if ctx.thorough() else self.n_quick
@@ -44,7 +47,8 @@ class RenderProp:
         return dis
 
     def judge(self, ctx, c, out, extra_points=()):
-        return renderjudge.judge(ctx.driver, c["src"], out, ctx.rng, n=self.points, mode=self.mode, tol=self.tol, extra_points=extra_points)
+        extra = list(extra_points) + [tuple(p) for p in c.get("points", [])]
+        return renderjudge.judge(ctx.driver, c["src"], out, ctx.rng, n=self.points, mode=self.mode, tol=self.tol, extra_points=extra)
 
     def search(self, ctx, disagreements):
         live = getattr(ctx, "_runs", None) or []
